@@ -1518,7 +1518,8 @@ def commit(
                 modified_files: list[str | bytes | os.PathLike[str]] = []
                 for path in unstaged_changes:
                     if isinstance(path, bytes):
-                        modified_files.append(path.decode())
+                        # Tree paths are arbitrary bytes, not always UTF-8
+                        modified_files.append(os.fsdecode(path))
                     else:
                         modified_files.append(path)
 
@@ -2094,7 +2095,8 @@ def add(
                 # Also add unstaged (modified) files within this directory
                 for unstaged_path in all_unstaged_paths:
                     if isinstance(unstaged_path, bytes):
-                        unstaged_path_str = unstaged_path.decode("utf-8")
+                        # Tree paths are arbitrary bytes, not always UTF-8
+                        unstaged_path_str = os.fsdecode(unstaged_path)
                     else:
                         unstaged_path_str = unstaged_path
 
